@@ -132,6 +132,19 @@ def main(argv):
         with open(os.path.join(HERE, "sensitivity", "fixed_findings.json"), "w") as f:
             json.dump(out, f, indent=1, sort_keys=True)
         return rc
+    if argv[0] == "rerun":
+        # re-run the given seeded changes (e.g. C02/3) against their own property and update the report in place
+        path = os.path.join(HERE, "sensitivity", "report.json")
+        rep = json.load(open(path))
+        for key in argv[1:]:
+            pid, k = key.split("/")
+            res = run_checks(os.path.join(HERE, "seeded", pid, k), [pid])
+            rep["runs"][key] = res
+            print(key, {i: ("KILLED" if v["killed"] else "exit%d" % v["exit"]) for i, v in res.items()}, flush=True)
+        rep["summary"] = {"seeded_changes": len(rep["runs"]),
+                          "killed_by_own_property_check": sum(1 for r in rep["runs"].values() if any(v["killed"] for v in r.values()))}
+        json.dump(rep, open(path, "w"), indent=1, sort_keys=True)
+        return 0
     if argv[0] == "all":
         from concurrent.futures import ThreadPoolExecutor
         all_props = "--props-all" in argv
